@@ -8,9 +8,15 @@ checks = {
  'C01': ('exploration', 'grammar-bounded exhaustive query x table enumeration through the real root command (in-process) against a reference SQL evaluator',
          'About 18k (query, table) cases: WHERE trees over 10 atoms, projections, DISTINCT, ORDER BY, LIMIT, FROM-subquery and WITH nestings over a table holding the whole 48-row NULL-heavy domain and over every small multiset of rows, as CSV (Int) and JSON (Float); printed rows must equal the reference as a multiset, in order under ORDER BY (tie groups as multisets).',
          'Bounded grammar and domains; nested LIMIT that admits several answers is skipped; typecheck rejections counted.', '3/C01'),
+ 'C02': ('model_checking', 'exhaustive query-shape x table-pair enumeration through the real root command (optimizer on and off) + exhaustive schedule enumeration of the real join nodes (hook H1)',
+         '19 join shapes (inner/theta/multi-key/expression key/WHERE conjuncts/USING/LOOKUP/LEFT/RIGHT/OUTER/nested) x every pair of small row multisets with NULL and duplicate keys x optimize on/off vs a reference nested-loop join; the StreamJoin/OuterJoin nodes under every interleaving of every pair of scripts incl. NULL keys: final output = SQL join whichever side ends first.',
+         'Bounded rows per side; hook H1 for the schedule part.', '3/C02'),
  'C05': ('exploration', 'exhaustive enumeration of LIMIT x ORDER BY x row multisets x placement x all five output modes through the real root command, with a parser per output format',
          'LIMIT 0..4, four ORDER BY forms, every multiset of <=4 rows over 3 (4) distinct rows, top level / nested in FROM / over a retracting counting-triggered GROUP BY, in live_table, batch_table, csv, json and stream_native: exactly min(n,N) rows, the first n of the sort order, duplicates counted individually.',
          'Short comma/quote-free values so all formats parse unambiguously; tie order unspecified.', '3/C05'),
+ 'C08': ('exploration', 'exhaustive enumeration of well-typed expressions/queries through the real typecheck->materialize->evaluate path with a conformance predicate on every produced value',
+         'Every function descriptor on every well-typed argument combination over a 42-atom alphabet (T and T|NULL variables, unions, Any, literals), casts, COALESCE, field access, indexing, tuples, AND/OR, IN, compositions of depth 2; 3.4k queries over a harness database (aggregates over all-NULL groups and empty tables, every join kind, subquery expressions) with and without the optimizer: each runtime value must belong to the static type.',
+         'Only sources whose values match their schema; panics/rejections counted, not judged.', '3/C08'),
  'C09': ('exploration', 'exhaustive pair/triple enumeration over a value universe on the real Compare/Hash/CompareValueSlices/HashManyValues',
          'All pairs and triples of an 86-value (1091 thorough) universe incl. NaN payloads, signed zeros, infinities, instants in two locations, nested lists/objects/tuples: reflexive, antisymmetric, transitive, equal => same hash, bytewise strings, NULL first.',
          'Finite universe; the CLI-observable half (ORDER BY/GROUP BY/DISTINCT agreeing) is covered through C01/C03 query checks, not here.', '3/C09'),
